@@ -275,9 +275,18 @@ def read_passwords(path, enc, prefixcount):
 
 
 def stream_text(path, enc):
-    """The decoded text as the codecs StreamReader of the reader sees it."""
-    with codecs.open(path, "r", encoding=enc, errors="surrogateescape") as f:
+    """The decoded text as the reader's file object sees it (opened the way the
+    source opens it: consts.trainer_io.extract_reader_open)."""
+    ro = K.extract_reader_open()
+    if ro["kind"] == "codecs":
+        with codecs.open(path, "r", encoding=enc, errors="surrogateescape") as f:
+            return f.read()
+    with open(path, "r", encoding=enc, errors="surrogateescape", newline=ro["newline"]) as f:
         return f.read()
+
+
+def reader_linebreaks():
+    return K.reader_linebreaks_of(K.extract_reader_open(), char_classes()["linebreak"])
 
 
 def unencodable_chars(text, enc):
